@@ -524,5 +524,24 @@ func Solve(name, text string, timeoutS int, needCvc5 bool) SolverResult {
 	cacheMu.Lock()
 	resultCache[key] = last
 	cacheMu.Unlock()
+	if last.Status == "unsat" {
+		// only queries that were not discharged are kept (they are referenced by the replay files)
+		os.Remove(file)
+	}
 	return last
+}
+
+// pruneQueryFiles removes query files of earlier runs that are older than the given age (the directory is a
+// scratch area: a long series of runs on failing trees would otherwise fill the disk).
+func pruneQueryFiles(maxAge time.Duration) {
+	ents, err := os.ReadDir(smtDir)
+	if err != nil {
+		return
+	}
+	now := time.Now()
+	for _, e := range ents {
+		if info, err := e.Info(); err == nil && now.Sub(info.ModTime()) > maxAge {
+			os.Remove(filepath.Join(smtDir, e.Name()))
+		}
+	}
 }
